@@ -41,12 +41,13 @@ macro "bridge_close" : tactic =>
     | (rw [forget_bind_pure, ← forget_bind_pure _ (), forget_unit])
     | (rw [forget_bind_pureF, ← forget_bind_pure _ (), forget_unit]))
 
-/-- the history-language counterpart of a protocol call (none: value-initialising count constructor, single-pass ranges,
+/-- the history-language counterpart of a protocol call (none: the single-pass insert in the middle,
     element access — calls the history languages do not have) -/
 def toMOp (s : Sys) : Op → Option (MOp Int)
   | .new x a => some (.ctorVals x a [])
   | .newv x n v a => some (.ctorVals x a (List.replicate n v))
   | .newr x .fw a vs => some (.ctorVals x a vs)
+  | .newr x .inp a vs => some (.ctorInput x a s.nextStream vs)
   | .newg x a vs => some (.ctorVals x a vs)
   | .newc x y (some a) => some (.ctorCopy x y a)
   | .newm x y none => some (.ctorMove x y)
@@ -62,6 +63,10 @@ def toMOp (s : Sys) : Op → Option (MOp Int)
   | .insn x p n (.ext v) => some (.on x (.insertN p n v))
   | .insn x p n (.self i) => some (.on x (.insertNSelf p n i))
   | .insr x p .fw vs => if vs.isEmpty then none else some (.on x (.insertRange p vs))
+  | .insr x p .inp vs =>      -- single-pass insert at end (): the append loop; in the middle: via a temporary container (C15 only)
+      if vs.isEmpty then none else if p = (s.w.hdr x).size then some (.on x (.appendInput false s.nextStream vs)) else none
+  | .asr x .inp vs => some (.on x (.assignInput s.nextStream vs))
+  | .app x .inp vs => some (.on x (.appendInput true s.nextStream vs))
   | .era x p => some (.on x (.erase p))
   | .erar x p q => some (.on x (.eraseRange p q))
   | .pop x => some (.on x .popBack)
@@ -79,7 +84,6 @@ def toMOp (s : Sys) : Op → Option (MOp Int)
   | .appc x y => some (.append x y)
   | .appm x y => some (.appendMove x y)
   | _ => none
-  where _unused := s
 
 /-- default construction IS range construction from an empty range (same program on every world) -/
 theorem ctorDefault_eq_fill (cfg : Cfg) (c a : Nat) (ch : Bool) (w : World Int) :
@@ -104,7 +108,10 @@ theorem bridge (ac : ApiCfg) (s : Sys) (op : Op) (m : MOp Int) (w0 : World Int) 
       injection h with h; subst h
       simp only [opM, MOp.run, hc2, extSrcs]
       rw [forget_bind_pure, forget_unit]
-    | inp => cases h
+    | inp =>
+      injection h with h; subst h
+      simp only [opM, MOp.run]
+      rw [forget_bind_pure, forget_unit]
   | newg x a vs =>
     injection h with h; subst h
     simp only [opM, MOp.run, hc3, extSrcs]
@@ -142,7 +149,15 @@ theorem bridge (ac : ApiCfg) (s : Sys) (op : Op) (m : MOp Int) (w0 : World Int) 
     | self i => injection h with h; subst h; simp only [opM, MOp.run, SOp.run, argSrc, hh]; bridge_close
   | insr x p k vs =>
     cases k with
-    | inp => cases h
+    | inp =>
+      simp only [toMOp] at h
+      by_cases he : vs.isEmpty = true
+      · rw [if_pos he] at h; cases h
+      · rw [if_neg he] at h
+        by_cases hp : p = (s.w.hdr x).size
+        · rw [if_pos hp] at h; injection h with h; subst h
+          simp only [opM, MOp.run, SOp.run, if_neg he, if_pos hp]; bridge_close
+        · rw [if_neg hp] at h; cases h
     | fw =>
       simp only [toMOp] at h
       by_cases he : vs.isEmpty = true
@@ -163,11 +178,11 @@ theorem bridge (ac : ApiCfg) (s : Sys) (op : Op) (m : MOp Int) (w0 : World Int) 
   | asn x n v => injection h with h; subst h; simp only [opM, MOp.run, SOp.run]; bridge_close
   | asr x k vs =>
     cases k with
-    | inp => cases h
+    | inp => injection h with h; subst h; simp only [opM, MOp.run, SOp.run]; bridge_close
     | fw => injection h with h; subst h; simp only [opM, MOp.run, SOp.run, extSrcs]; bridge_close
   | app x k vs =>
     cases k with
-    | inp => cases h
+    | inp => injection h with h; subst h; simp only [opM, MOp.run, SOp.run]; bridge_close
     | fw => injection h with h; subst h; simp only [opM, MOp.run, SOp.run, extSrcs]; bridge_close
   | asc x y => injection h with h; subst h; simp only [opM, MOp.run]; bridge_close
   | asm x y => injection h with h; subst h; simp only [opM, MOp.run]; bridge_close
@@ -207,7 +222,16 @@ theorem bridge_valid_on (s : Sys) (op : Op) (c : Nat) (sop : SOp Int) (h : toMOp
     | self i => injection h with h; injection h with h1 h2; subst h1; subst h2; simp [Op.valid] at hv; exact ⟨hv.1.1, hv.1.2, hv.2⟩
   | insr x p k vs =>
     cases k with
-    | inp => cases h
+    | inp =>
+      simp only [toMOp] at h
+      by_cases he : vs.isEmpty = true
+      · rw [if_pos he] at h; cases h
+      · rw [if_neg he] at h
+        by_cases hp : p = (s.w.hdr x).size
+        · rw [if_pos hp] at h; injection h with h; injection h with h1 h2; subst h1; subst h2
+          simp [Op.valid] at hv
+          exact ⟨hv.1, trivial⟩
+        · rw [if_neg hp] at h; cases h
     | fw =>
       simp only [toMOp] at h
       by_cases he : vs.isEmpty = true
@@ -229,11 +253,11 @@ theorem bridge_valid_on (s : Sys) (op : Op) (c : Nat) (sop : SOp Int) (h : toMOp
   | asn x n v => injection h with h; injection h with h1 h2; subst h1; subst h2; simp [Op.valid] at hv; exact ⟨hv, trivial⟩
   | asr x k vs =>
     cases k with
-    | inp => cases h
+    | inp => injection h with h; injection h with h1 h2; subst h1; subst h2; simp [Op.valid] at hv; exact ⟨hv, trivial⟩
     | fw => injection h with h; injection h with h1 h2; subst h1; subst h2; simp [Op.valid] at hv; exact ⟨hv, trivial⟩
   | app x k vs =>
     cases k with
-    | inp => cases h
+    | inp => injection h with h; injection h with h1 h2; subst h1; subst h2; simp [Op.valid] at hv; exact ⟨hv, trivial⟩
     | fw => injection h with h; injection h with h1 h2; subst h1; subst h2; simp [Op.valid] at hv; exact ⟨hv, trivial⟩
   | newv _ _ _ _ => injection h with h; cases h
   | newr _ k _ _ => cases k <;> (first | cases h | (injection h with h; cases h))
@@ -252,7 +276,7 @@ theorem bridge_valid_on (s : Sys) (op : Op) (c : Nat) (sop : SOp Int) (h : toMOp
   | «at» _ _ => cases h
   | get _ _ => cases h
 
-/-- non-vacuity: the bridge covers 34 of the protocol's call forms; two instances -/
+/-- non-vacuity: the bridge covers 38 of the protocol's call forms; two instances -/
 example : toMOp (initSys 2 3) (.insn 0 1 3 (.self 0)) = some (.on 0 (.insertNSelf 1 3 0)) ∧
           toMOp (initSys 2 3) (.appm 0 2) = some (.appendMove 0 2) := ⟨rfl, rfl⟩
 
